@@ -62,17 +62,19 @@ impl SixelParser {
             self.parse_char(ch)?;
         }
         self.parse_char('#')?;
-        let mut picture_data = Vec::new();
-        for y in 0..self.height() {
-            let line = &self.picture_data[y as usize];
+        // rows grow independently: the picture is as wide as its widest row, shorter rows are padded
+        let row_bytes = self.picture_data.iter().map(Vec::len).max().unwrap_or(0);
+        let mut picture_data = Vec::with_capacity(row_bytes * self.picture_data.len());
+        for line in &self.picture_data {
             picture_data.extend(line);
+            picture_data.resize(picture_data.len() + row_bytes - line.len(), 0);
         }
         Ok(Sixel {
             position: self.pos,
             vertical_scale: self.vertical_scale,
             horizontal_scale: self.horizontal_scale,
             picture_data,
-            size: (self.width(), self.height()).into(),
+            size: ((row_bytes / 4) as i32, self.height()).into(),
         })
     }
 
